@@ -155,6 +155,7 @@ class Engine:
         self.event_index = {}     # (kind, block, si) -> one Ev instance (for evidence)
         self.obligations = set()  # (rule, what, block) evaluated on at least one path
         self.truncated = False
+        self.unfollowed = []      # constructs met on an explored path that the analysis does not model: no verdict
         self.drv_at_return = {}   # call site -> variants ("0" None / "1" Some) its last result had in states reaching a return
         self.return_states = 0
         self.two_variant = set()  # expressions of type Option / Result (type facts, collected where a discriminant is read)
@@ -292,6 +293,13 @@ class Engine:
                     if src is not None and src[0] == "bin" and src[1] in ("AddWithOverflow", "SubWithOverflow", "Add", "Sub") and is_const(src[2]) and is_const(src[3]) \
                             and self._self_step(blk, si, d["l"]):
                         e = ("stepped", src[2])
+                if s["rv"]["k"] == "use" and s["rv"]["op"].get("k") == "move" and "*" in s["rv"]["op"]["pl"]["p"] and e[0] == "field":
+                    bpm = box_part(mk_ref(e))
+                    if bpm is not None and bpm[1] in ("value", "links"):
+                        # a field moved out of an object's allocation by a plain move (possible through a Box only)
+                        cur = cur.replace(val=fz(val))
+                        cur = self.emit(Ev("moveout", b, si, box=bpm[0], field=bpm[1], how="move", res=e, line=s.get("line")), cur)
+                        val = dict(cur.val)
                 if not d["p"]:
                     if d["l"] in self.bi.dyn:
                         val[d["l"]] = e
@@ -851,6 +859,10 @@ class Engine:
     def drop_events(self, b, ty, e, t):
         adt = ty.get("adt") if ty.get("peel", 0) == 0 else None
         line = t.get("line")
+        # a Box that owns an object's allocation (`Box::from_raw(rcbox)`) goes: the allocation is freed (the fields of an
+        # RcBox have no drop glue of their own: counters and MaybeUninit storage)
+        if adt == "alloc::boxed::Box" and ((ty.get("args") or [{}])[0]).get("adt") == "cactusref::rc::RcBox":
+            return [Ev("free", b, None, ptr=e, layout=("call", b, "core::alloc::Layout::new", ()), line=line, callee="alloc::boxed::Box::drop")]
         # the contents of a box destroyed where they are (`*slot = new_value` drops the old value in place;
         # `ptr::drop_in_place(&mut (*b).value)`): a move-out and the destruction of what was moved, in one
         bp = box_part(mk_ref(e)) if e[0] != "call" else None
@@ -953,6 +965,9 @@ class Engine:
                     A("get", box=bp[0], field=bp[1])
                 elif m == "set":
                     A("set", box=bp[0], field=bp[1], value=args[1], cls=classify_set(args[1], bp, st))
+                elif m == "as_ptr":
+                    # reads and writes through a raw pointer to a reference counter are not followed: no verdict
+                    self.unfollowed.append("a raw pointer to the %s count of an object is taken with `Cell::as_ptr` (%s:%s); reads and writes through it are outside what the analysis can follow" % (bp[1], t.get("file"), t.get("line")))
                 else:
                     A("set", box=bp[0], field=bp[1], value=("unk", m), cls="other:" + m)
                 return evs, False
@@ -976,6 +991,11 @@ class Engine:
         # ---- hash tables (link tables and local maps/sets)
         if crate == "hashbrown":
             m = d.rsplit("::", 1)[1]
+            if m in ("new", "with_hasher", "with_capacity", "with_capacity_and_hasher", "new_in", "with_hasher_in") and (d.startswith("hashbrown::HashMap::") or d.startswith("hashbrown::HashSet::")):
+                # constructors: an empty container (its arguments are a hasher / a capacity, not a container)
+                if "capacity" in m:
+                    A("alloc", what=d)
+                return evs, False
             recv = args[0] if args else None
             tb = table_of(recv) if recv is not None else None
             A("tbl", op=m, table=tb, recv=recv, args=args, res=res, container=d.split("::<")[0])
@@ -987,7 +1007,8 @@ class Engine:
         # ---- memory
         if d in ("core::mem::replace", "core::mem::take", "core::mem::swap", "core::ptr::read", "core::ptr::replace",
                  "core::ptr::read_unaligned", "core::ptr::read_volatile", "core::mem::MaybeUninit::<T>::assume_init_read",
-                 "core::ptr::const_ptr::<impl *const T>::read", "core::ptr::mut_ptr::<impl *mut T>::read", "core::ptr::mut_ptr::<impl *mut T>::replace"):
+                 "core::ptr::const_ptr::<impl *const T>::read", "core::ptr::mut_ptr::<impl *mut T>::read", "core::ptr::mut_ptr::<impl *mut T>::replace",
+                 "core::mem::ManuallyDrop::<T>::take", "core::mem::ManuallyDrop::<T>::into_inner"):
             bp = box_part(args[0]) if args else None
             if bp is not None:
                 if bp[1] in ("value", "links"):
@@ -1057,10 +1078,9 @@ class Engine:
                 # the allocation of an object re-wrapped in a Box: the Box owns it from here on -- its contents are moved
                 # out of it or dropped with it, and the allocation is freed when the Box goes (the library never keeps
                 # such a Box): the whole allocation is given up at this point
-                p_ = args[0]
-                for fld in ("value", "links"):
-                    A("moveout", box=p_, field=fld, how="box-from-raw", res=("field", ("deref", p_), fld, "cactusref::rc::RcBox"))
-                A("free", ptr=p_, layout=("call", b, "core::alloc::Layout::new", ()))
+                # (the Box is the pointer, see expr.IDENTITY; what is moved out of it shows as moves of its fields, and
+                # the allocation is freed where the Box is dropped: drop_events)
+                pass
             return evs, False
         if d.endswith("Allocator::deallocate") or d in ("alloc::alloc::dealloc",):
             A("free", ptr=args[1] if len(args) > 1 else args[0], layout=args[-1])
